@@ -96,7 +96,7 @@ CHECKS = {
     "C08": {"drivers": ["hist", "hist_long", "seq", "size", "fail"], "models": ["hist_k256", "build_k256"]},
     "C09": {"drivers": ["size", "hist", "struct"], "models": ["hist_k256", "build_k256"]},
     "C10": {"drivers": ["nid", "valid", "hist", "cross", "api", "fail"], "models": ["hist_ed"]},
-    "C11": {"drivers": ["cross", "struct", "auth_light", "valid", "api"], "models": ["gen_secp", "gen_ed", "hist_comb_ed"]},
+    "C11": {"drivers": ["cross", "struct", "auth_light", "valid", "api", "nid"], "models": ["gen_secp", "gen_ed", "hist_comb_ed"]},
     "C12": {"drivers": ["text", "hist_full", "size_full"], "models": ["text"]},
     "C13": {"drivers": ["prefix", "valid", "api"], "models": ["stream"]},
     "C14": {"drivers": ["typed_q", "typed_b", "hist_full"], "models": ["typed"]},
